@@ -128,3 +128,18 @@ Definition query_left (elapsed lifetime : N) (query_timeout : option N) (attempt
 Definition tcp_read_timeout (elapsed lifetime : N) : res N :=
   if std_tcp_read_over elapsed lifetime then Err Timeout
   else if std_tcp_read_timeout_nounderflow elapsed lifetime then Ok (std_tcp_read_timeout elapsed lifetime) else Panic.
+
+(* ---------------------------------------------------------------- one whole raw query *)
+(* recv() truncates a datagram to the buffer it is given *)
+Definition recv_into (buf_len : N) (d : list byte) : list byte := firstn (N.to_nat buf_len) d.
+
+(* the UDP exchange over the datagrams delivered before the lifetime ends: nothing accepted is
+   Timeout (retransmissions send the same bytes and do not change what is accepted) *)
+Definition udp_outcome (std : bool) (msg_id : N) (qname : list byte) (qtype qclass buf_len : N) (ds : list (list byte))
+  : res (list byte * N) :=
+  let* r := udp_receive std msg_id qname qtype qclass (map (recv_into buf_len) ds) in
+  match r with Some x => Ok x | None => Err Timeout end.
+
+Definition client_query (std : bool) (strategy msg_id : N) (qname : list byte) (qtype qclass buf_len : N)
+           (ds : list (list byte)) (segs : list (list byte)) : list event * res (list byte) :=
+  query_raw_impl std strategy (udp_outcome std msg_id qname qtype qclass buf_len ds) (tcp_exchange std segs buf_len).
